@@ -32,6 +32,7 @@ import Cog.Sem.RoundTrip
 import Cog.Sem.DenMono
 import Cog.Sem.WidenChain
 import Cog.Sem.WidenChainN
+import Cog.Sem.WidenWitness
 import Cog.Gen.Chains
 namespace Cog.Sem
 open Cog.IR GoVal
@@ -242,6 +243,37 @@ example : PlainN exSrcN = true ∧ Plain exSrcN = false ∧
      | .ok S' => den 9 S' (.ref "p" "Root" {}) exSrcDocN && roundTripsOK S' "p" "Root" exSrcDocN
      | _ => false) = true := by
   refine ⟨by decide +kernel, by decide +kernel, by decide +kernel, by decide +kernel⟩
+
+/-! ### the full statement of (c) is false on the current tree -/
+
+def wA : Ty :=
+  .struct [{ name := "b", ty := .struct [{ name := "x", ty := tStr, required := true }] [] none m0, required := true },
+           { name := "c", ty := .ref "p" "PAB" m0, required := false }] [] none m0
+def wPAB : Ty := .struct [{ name := "y", ty := .scalar "int64" .nil [] m0, required := true }] [] none m0
+
+/-- `A = { b: { x: string }, c?: PAB }` next to a user-defined `PAB = { y: int64 }` in package `p`:
+    AnonymousStructsToNamed names the struct of `A.b` `PAB` and overwrites the definition (replayed on
+    the real front-end and passes: harness/c01_src.go, `c01PinnedCollide`) -/
+def wCollide : Schemas :=
+  [{ pkg := "p", objects := [
+      ("A", { name := "A", selfPkg := "p", selfName := "A", ty := wA }),
+      ("PAB", { name := "PAB", selfPkg := "p", selfName := "PAB", ty := wPAB })] }]
+
+def wDoc : Json := .obj [("y", .num 4)]
+
+/-- `{"y": 1}` is a document of `PAB` at the source, and of no fuel's `den` after the Go chain -/
+theorem C01_pass_widening_counterexample : ¬ C01_pass_widening_full := by
+  intro hfull
+  have hshape : (match runChain goChain wCollide with
+      | .ok S' => lacksMember S' "p" "PAB" "y" | _ => false) = true := by decide +kernel
+  cases hr : runChain goChain wCollide with
+  | ok S' =>
+    rw [hr] at hshape
+    obtain ⟨n', h⟩ := hfull wCollide S' "p" "PAB" 4 wDoc hr (by decide +kernel)
+    rw [wDoc, lacksMember_den S' "p" "PAB" "y" hshape] at h
+    cases h
+  | err e => rw [hr] at hshape; cases hshape
+  | panic e => rw [hr] at hshape; cases hshape
 
 /-- a member outside the enum is rejected at the source (and accepted by `den`, which only reads the kind) -/
 example : srcDen 8 exSrc (.ref "p" "Root" {}) (.obj [("name", .str "x"), ("mode", .str "up")]) = false := by
